@@ -78,6 +78,22 @@ fix(
     ),
 )
 
+fix(
+    "C14f",
+    "fix: give a reform its own parameter tree before an extension is merged into it",
+    (
+        "openfisca_core/taxbenefitsystems/tax_benefit_system.py",
+        "            TaxBenefitSystem.get_parameters_at_instant.cache_clear()\n            self.parameters.merge(extension_parameters)\n",
+        "            TaxBenefitSystem.get_parameters_at_instant.cache_clear()\n"
+        "            if self.baseline is not None and self.parameters is self.baseline.parameters:\n"
+        "                # A reform shares its baseline's tree until it changes it: the\n"
+        "                # baseline is not to be mutated.\n"
+        "                self.parameters = copy.deepcopy(self.parameters)\n"
+        "                self._parameters_at_instant_cache = {}\n"
+        "            self.parameters.merge(extension_parameters)\n",
+    ),
+)
+
 TBS = "openfisca_core/taxbenefitsystems/tax_benefit_system.py"
 fix(
     "C07",
